@@ -448,15 +448,18 @@ func (d *badgerNodeDB) Finalize(roots []node.Root) error { // nolint: gocyclo
 		}
 	}
 
+	verifCrashPoint("pathbadger.finalize.0-before-writes")
 	// All removals should be done at the end so in case finalization is interrupted, we can recover
 	// by simply redoing finalization. Flush batches here to ensure all node copying has been
 	// committed.
 	if err := batch.Flush(); err != nil {
 		return err
 	}
+	verifCrashPoint("pathbadger.finalize.1-after-copy-flush")
 	if err := batchMeta.Flush(); err != nil {
 		return err
 	}
+	verifCrashPoint("pathbadger.finalize.2-after-copymeta-flush")
 	batch = d.db.NewWriteBatchAt(versionToTs(version))
 	defer batch.Cancel()
 	batchMeta = d.db.NewWriteBatchAt(tsMetadata)
@@ -501,13 +504,16 @@ func (d *badgerNodeDB) Finalize(roots []node.Root) error { // nolint: gocyclo
 	if err := batch.Flush(); err != nil {
 		return err
 	}
+	verifCrashPoint("pathbadger.finalize.3-after-delete-flush")
 	if err := batchMeta.Flush(); err != nil {
 		return err
 	}
+	verifCrashPoint("pathbadger.finalize.4-after-deletemeta-flush")
 
 	// Update last finalized version.
 	d.meta.setLastFinalizedVersion(version)
 	d.meta.commit(tx)
+	verifCrashPoint("pathbadger.finalize.5-after-meta-commit")
 
 	// Clean multipart metadata if there is any.
 	if d.multipartVersion != multipartVersionNone {
@@ -616,17 +622,21 @@ func (d *badgerNodeDB) Prune(version uint64) error {
 		wtx.Discard()
 	}
 
+	verifCrashPoint("pathbadger.prune.0-before-writes")
 	// Commit batch.
 	if err := batch.Flush(); err != nil {
 		return fmt.Errorf("mkvs/pathbadger: failed to flush batch: %w", err)
 	}
+	verifCrashPoint("pathbadger.prune.1-after-batch-flush")
 	if err := batchMeta.Flush(); err != nil {
 		return fmt.Errorf("mkvs/pathbadger: failed to flush batch: %w", err)
 	}
+	verifCrashPoint("pathbadger.prune.2-after-batchmeta-flush")
 
 	// Update metadata.
 	d.meta.setEarliestVersion(version + 1)
 	d.meta.commit(tx)
+	verifCrashPoint("pathbadger.prune.3-after-meta-commit")
 
 	// Discard everything invalidated at or below the _new_ earliest version. E.g. there is no need
 	// to keep around any keys that were removed at `version + 1`.
@@ -713,7 +723,9 @@ func (d *badgerNodeDB) NewBatch(oldRoot node.Root, version uint64, chunk bool) (
 		if err != nil {
 			return nil, err
 		}
+		verifCrashPoint("pathbadger.newbatch.0-before-writes")
 		d.meta.commit(tx)
+		verifCrashPoint("pathbadger.newbatch.1-after-meta-commit")
 		// Start a fresh index.
 		lastIndex = new(atomic.Uint32)
 		lastIndex.Store(indexRootNode)
@@ -917,7 +929,9 @@ func (ba *badgerBatch) Commit(root node.Root) error {
 	if err := ba.db.meta.setPendingRootSeqNo(root.Version, rootHash, ba.seqNo); err != nil {
 		return fmt.Errorf("mkvs/pathbadger: failed to set pending root seqno: %w", err)
 	}
+	verifCrashPoint("pathbadger.commit.0-before-writes")
 	ba.db.meta.commit(tx)
+	verifCrashPoint("pathbadger.commit.1-after-meta-commit")
 
 	if !ba.chunk {
 		// Store updated nodes (only needed until the version is finalized).
@@ -941,9 +955,11 @@ func (ba *badgerBatch) Commit(root node.Root) error {
 	if err := ba.batMeta.Flush(); err != nil {
 		return fmt.Errorf("mkvs/pathbadger: failed to flush batch: %w", err)
 	}
+	verifCrashPoint("pathbadger.commit.2-after-batmeta-flush")
 	if err := ba.bat.Flush(); err != nil {
 		return fmt.Errorf("mkvs/pathbadger: failed to flush batch: %w", err)
 	}
+	verifCrashPoint("pathbadger.commit.3-after-batch-flush")
 
 	ba.Reset()
 	return ba.BaseBatch.Commit(root)
